@@ -47,3 +47,8 @@ def run(ck, F, E):
     common.successor_rule(ck, F, "C05")
     C13.range_rule(ck, F, "C05")
     C13.errpos_rules(ck, F, "C05")
+
+
+def run_thorough(ck, F, E):
+    import clippy_xref
+    clippy_xref.cross_reference(ck, F, "C05", package="abasic-core", crate="abasic_core")
